@@ -85,6 +85,11 @@ impl Check for C09 {
         st.distinct(history_sig(sc));
         st.oracle_evals += 1;
         st.log("history", sc.ops.len() as u64, model.body_len() as u64);
+        match &real {
+            RealOutcome::Built(b) => st.log("built", b.len() as u64, fnv(b)),
+            RealOutcome::WriteFailed(i) => st.log("write_failed", *i as u64, 0),
+            RealOutcome::BuildFailed => st.log("build_failed", 0, 0),
+        }
         let body = model.body_len();
         if model.set_length_after_first_write {
             st.hit("probe:set_length_after_first_write");
